@@ -9,8 +9,10 @@ package main
 import (
 	"bytes"
 	"fmt"
+	"github.com/mosaicnetworks/babble/src/crypto/keys"
 	"math/rand"
 	"os"
+	"path/filepath"
 	"strings"
 
 	"github.com/mosaicnetworks/babble/src/common"
@@ -222,6 +224,132 @@ func runC16(r *Result, thorough bool) {
 	for s := 0; s < nst; s++ {
 		storeCase(r, rng, s, thorough)
 	}
+	// --- (c) an acknowledged write is what is read back: second writes of events, also of events
+	// that left the cache and the creator's rolling window long ago
+	nrw := 6
+	if thorough {
+		nrw = 60
+	}
+	for s := 0; s < nrw; s++ {
+		storeRewriteCase(r, rng, s)
+	}
+}
+
+// storeRewriteCase: raw store API on Badger and in-memory stores with a small cache: a chain of
+// events much longer than the cache, then second writes (changed consensus attributes) of random
+// events (the wire info, a persisted part of the database form, is changed; round, Lamport
+// timestamp and round received are by design not persisted). SetEvent either refuses (then the stored value is unchanged) or acknowledges (then
+// GetEvent, the database and the store after close / reopen return the written value).
+func storeRewriteCase(r *Result, rng *rand.Rand, id int) {
+	cache := 3 + rng.Intn(10)
+	nCreators := 1 + rng.Intn(3)
+	parts := newParticipants(rng, nCreators)
+	pl := []*peers.Peer{}
+	for _, p := range parts {
+		pl = append(pl, p.peer)
+	}
+	badger := rng.Intn(4) != 0
+	var st hg.Store
+	dir := ""
+	if badger {
+		dir = tmpBadger(fmt.Sprintf("c16rw-%d", id))
+		defer os.RemoveAll(filepath.Dir(dir))
+		b, err := hg.NewBadgerStore(cache, dir, false, nil)
+		if err != nil {
+			panic(err)
+		}
+		st = b
+	} else {
+		st = hg.NewInmemStore(cache)
+	}
+	if err := st.SetPeerSet(0, peers.NewPeerSet(pl)); err != nil {
+		return
+	}
+	what := func(s string, a ...interface{}) {
+		r.Violate("impl-violation", fmt.Sprintf("store rewrite case %d (badger=%v cache %d, %d creators): ", id, badger, cache, nCreators)+fmt.Sprintf(s, a...), "store-rewrite:"+strings.SplitN(s, " ", 2)[0], map[string]interface{}{"cache": cache, "badger": badger})
+	}
+	heads := make([]string, nCreators)
+	hexes := []string{}
+	want := map[string][3]int{} // wire info (self-parent index, other-parent creator, other-parent index) as last acknowledged
+	n := cache*(2+rng.Intn(3)) + rng.Intn(cache)
+	for i := 0; i < n; i++ {
+		c := rng.Intn(nCreators)
+		idx := 0
+		for _, h := range hexes {
+			if e, err := st.GetEvent(h); err == nil && e.Creator() == parts[c].hex {
+				idx++
+			}
+		}
+		other := ""
+		if len(hexes) > 0 {
+			other = hexes[rng.Intn(len(hexes))]
+		}
+		ev := hg.NewEvent([][]byte{[]byte(fmt.Sprintf("rw%d", i))}, nil, nil, []string{heads[c], other}, keys.FromPublicKey(&parts[c].key.PublicKey), idx)
+		ev.Sign(parts[c].key)
+		if err := st.SetEvent(ev); err != nil {
+			what("first write of an event refused: %v", err)
+			return
+		}
+		heads[c] = ev.Hex()
+		hexes = append(hexes, ev.Hex())
+		w0 := ev.ToWire()
+		want[ev.Hex()] = [3]int{w0.Body.SelfParentIndex, int(w0.Body.OtherParentCreatorID), w0.Body.OtherParentIndex}
+	}
+	acked, refused := 0, 0
+	get := func(e *hg.Event) [3]int {
+		w := e.ToWire()
+		return [3]int{w.Body.SelfParentIndex, int(w.Body.OtherParentCreatorID), w.Body.OtherParentIndex}
+	}
+	for k := 0; k < 3*cache; k++ {
+		h := hexes[rng.Intn(len(hexes))]
+		if rng.Intn(2) == 0 {
+			h = hexes[rng.Intn(cache)] // old ones: out of the cache and of the rolling window
+		}
+		e, err := st.GetEvent(h)
+		if err != nil {
+			if badger {
+				what("GetEvent of a stored event fails: %v", err)
+			}
+			continue // the in-memory store forgets evicted events (outside the property)
+		}
+		nv := [3]int{rng.Intn(50), rng.Intn(500), rng.Intn(50)}
+		e.SetWireInfo(nv[0], uint32(nv[1]), nv[2], e.ToWire().Body.CreatorID)
+		if err := st.SetEvent(e); err != nil {
+			refused++
+		} else {
+			acked++
+			want[h] = nv
+		}
+		if g, err := st.GetEvent(h); err == nil && get(g) != want[h] {
+			what("SetEvent answered %v for a second write of an event, GetEvent returns wire info %v, last acknowledged %v", err, get(g), want[h])
+			return
+		}
+	}
+	r.Inc("rewrites_acknowledged", acked)
+	r.Inc("rewrites_refused", refused)
+	if badger {
+		st.Close()
+		b, err := hg.NewBadgerStore(cache, dir, false, nil)
+		if err != nil {
+			what("reopen failed: %v", err)
+			return
+		}
+		defer b.Close()
+		for h, w := range want {
+			g, err := b.VerifDBGetEvent(h)
+			if err != nil {
+				what("event missing after reopen: %v", err)
+				return
+			}
+			if get(g) != w {
+				what("after close and reopen an event has wire info %v, the last acknowledged write was %v", get(g), w)
+				return
+			}
+		}
+	} else {
+		st.Close()
+	}
+	r.Count(fmt.Sprintf("rewrite %d %v %d", id, badger, cache), acked > 0)
 }
 
 // storeCase drives a real store through a gossip history and compares every
